@@ -58,7 +58,9 @@ func Iterate[T comparable, P Object[T]](im *Impl[T, P], dims []Dim, bg spec.Assi
 				}
 			}
 			if modelled || judgeAnyway {
-				fn(idx, a, &o)
+				// fn gets a copy: a judged method that writes into its receiver must not disturb the sweep
+				c := o
+				fn(idx, a, &c)
 			}
 			if idx+1 == hi {
 				break
